@@ -41,7 +41,7 @@ def sh(cmd, cwd=None, timeout=3600, env=None):
     e = dict(os.environ)
     if env:
         e.update(env)
-    p = subprocess.run(cmd, cwd=cwd, stdout=subprocess.PIPE, stderr=subprocess.STDOUT, timeout=timeout, env=e)
+    p = subprocess.run(cmd, cwd=cwd, stdout=subprocess.PIPE, stderr=subprocess.STDOUT, timeout=timeout, env=e, preexec_fn=fw.unlimit_memory)
     return p.returncode, p.stdout.decode(errors="replace")
 
 
@@ -303,6 +303,8 @@ def run(pid: str, tier: str, seed: int) -> int:
         if pid != "C20" and not os.environ.get("VERIF_NO_PAST"):
             from verif import impl
             impl.pollute(seed)  # every slice runs in a process with a past (see impl.pollute); C20 uses fresh interpreters throughout
+        fw.KNOWN_KEYS.update(e["id"] for e in known_for(pid) if e.get("status") == "finding")
+        fw.T0[0] = time.time()
         out = prop.slice(ctx)
         if getattr(prop, "LEAVES", None) and driver_ok:
             from verif import leaf
@@ -313,8 +315,19 @@ def run(pid: str, tier: str, seed: int) -> int:
             for X, v in ties.items():
                 out.notes.append(f"leaf tie {X}: " + (f"{v['theorem']} holds for the AST dumped from the working tree" if v["proved"]
                                                       else f"NOT established ({v['why']}); tie = correspondence only, exploration ×4"))
-    except Exception:  # noqa: BLE001
-        infra.append("slice crashed: " + traceback.format_exc()[-1500:])
+    except fw.Enough as en:
+        out = en.outcome
+        out.notes.append("slice stopped at the first exhaustion of the memory cap by the implementation")
+    except Exception as ex:  # noqa: BLE001
+        frames = traceback.extract_tb(ex.__traceback__)
+        inner = frames[-1] if frames else None
+        if isinstance(ex, (MemoryError, RecursionError)) and inner is not None and str(inner.filename).startswith(str(REPO)):
+            # the code under test ran out of the capped memory (fw.limit_memory) or of stack at a call the harness makes on every run:
+            # not a harness problem — the property is no longer shown to hold, and the call stack is the lead
+            broken.append(f"{type(ex).__name__} inside {pathlib.Path(inner.filename).name}:{inner.lineno} ({inner.name}) while the harness exercised the "
+                          "implementation: " + " <- ".join(f"{pathlib.Path(f.filename).name}:{f.lineno}" for f in reversed(frames[-5:])))
+        else:
+            infra.append("slice crashed: " + traceback.format_exc()[-1500:])
     violations = list(out.violations) if out else []
     corr = list(out.corr) if out else []
     # ---- known findings: replay each one listed for this property
@@ -439,9 +452,11 @@ def main(argv) -> int:
         args = [a for a in args if a != tier]
     seed = int(os.environ.get("VERIF_SEED", "0") or 0)
     if "--replay" in argv:
+        fw.limit_memory()
         return replay(pid, argv[argv.index("--replay") + 1])
     if tier not in ("quick", "thorough"):
         tier = "quick"
+    fw.limit_memory()
     return run(pid, tier, seed)
 
 
